@@ -186,13 +186,33 @@ def _upload_capable(ctx: Ctx) -> dict[str, FunctionInfo]:
 
 
 def _count_is_consumed(f: FunctionInfo, name: str, at: ast.AST) -> bool:
-    """The counted bytes are looked at again: in a budget call, a comparison, or as an argument of a call."""
+    """The counted bytes are looked at again: in a budget call, a comparison, or as an argument of a call --
+    directly or after being added / copied into another local (`n = flush(); total += n; if total > cap`)."""
+    names = {name}
+    for _ in range(4):
+        grew = False
+        for n in walk_scope(f.node):
+            tgt = None
+            if isinstance(n, ast.AugAssign) and isinstance(n.target, ast.Name):
+                tgt = n.target.id
+            elif isinstance(n, ast.Assign) and len(n.targets) == 1 and isinstance(n.targets[0], ast.Name):
+                tgt = n.targets[0].id
+            elif isinstance(n, ast.AnnAssign) and isinstance(n.target, ast.Name) and n.value is not None:
+                tgt = n.target.id
+            if tgt is None or tgt in names or n is at:
+                continue
+            val = n.value
+            if val is not None and not isinstance(val, ast.Call) and names & {x.id for x in ast.walk(val) if isinstance(x, ast.Name)}:
+                names.add(tgt)
+                grew = True
+        if not grew:
+            break
     for n in walk_scope(f.node):
-        if isinstance(n, ast.Compare) and name in {x.id for x in ast.walk(n) if isinstance(x, ast.Name)}:
+        if isinstance(n, ast.Compare) and names & {x.id for x in ast.walk(n) if isinstance(x, ast.Name)}:
             return True
         if isinstance(n, ast.Call) and n is not getattr(at, "value", None):
             for a in [*n.args, *[k.value for k in n.keywords]]:
-                if name in {x.id for x in ast.walk(a) if isinstance(x, ast.Name)}:
+                if names & {x.id for x in ast.walk(a) if isinstance(x, ast.Name)}:
                     return True
     return False
 
@@ -275,6 +295,33 @@ def run(ctx: Ctx) -> None:
         o2 = ex.run(starts=starts, avoid=_done(tf.cfg, [tf.cfg.stmt_of(c) for c in tf.err_writes]))
         if tf.acc is None or o2.reaches(tf.ret):
             bad_act.append(combo)
+    # the external cap bounds the turn's *cumulative* upload: two iterations that each upload just over half the cap
+    # are over it together.  Explored iteration by iteration (the loop is cut at the next process() call).
+    half = ECAP // 2 + 1
+    bad_cum: list[str] = []
+    pst = tf.cfg.stmt_of(tf.process)
+    p_att, p_done = set(tf.cfg.attempt(pst)), _done(tf.cfg, [pst])
+    errs_done = _done(tf.cfg, [tf.cfg.stmt_of(c) for c in tf.err_writes])
+    for wire, combo in ((WCAP, "both caps set"),):
+        o = ex.run(turn_env(tf, predicted=0, uploaded=half, wire=wire, finished=False), avoid=p_done)
+        arrive = [en for n in p_att for en in o.envs_at.get(n, [])]
+        if not arrive:
+            raise AnalysisError("C16: producer process() not reached in the first iteration")
+        for it in (1, 2):
+            o = ex.run(starts=[(v, dict(en)) for d in p_done for v in tf.cfg.succ[d] if tf.cfg.label.get((d, v), "") != "exc" for en in arrive], avoid=p_done)
+            nxt = [en for n in p_att for en in o.envs_at.get(n, [])]
+            if it == 1:
+                if not nxt:
+                    raise AnalysisError("C16: producer turn does not continue after an upload of half the external cap (test environment wrong)")
+                arrive = nxt
+                continue
+            if nxt:
+                bad_cum.append(f"{combo}: process() runs a third time after two uploads of {half} B each (cap {ECAP})")
+            elif ex.run(starts=[(v, dict(en)) for d in p_done for v in tf.cfg.succ[d] if tf.cfg.label.get((d, v), "") != "exc" for en in arrive], avoid=p_done | errs_done).reaches(tf.ret):
+                bad_cum.append(f"{combo}: the turn returns without an error batch after two uploads of {half} B each (cap {ECAP})")
+    ctx.check(not bad_cum, "RF-DOM", "producer:cumulative-upload-checked", tf.fi, tf.flush,
+              ok=f"two iterations uploading {half} B each (together over the cap of {ECAP}) end the turn in an error batch: the cap bounds the turn's cumulative upload",
+              bad="the external cap is applied per iteration, not to the turn's cumulative upload: " + "; ".join(bad_cum))
     ctx.check(not bad_pf, "RF-DOM", "producer:external-preflight-refuses-before-upload", tf.fi, tf.flush,
               ok="a predicted upload of cap+1 bytes writes an error batch and never reaches the flush (wire cap set or unset)",
               bad=f"with a predicted upload over the external cap the flush (upload) is still reachable [{', '.join(bad_pf)}]")
